@@ -32,7 +32,7 @@ const workers = 8
 
 func main() {
 	vf.Main("C43", "exploration",
-		"cases = (history, start, walker/order, limit); exhaustive part: every isomorphism class of DAGs with n<=N commits and <=2 parents x all weak orderings of committer time (parent order flipped on every second ordering) x every start x {6 Repository.Log orders, 4 commit-node walkers x {object-backed, commit-graph-backed}, Since/Until at every distinct time, To at every reachable commit}; random part: DAGs of 3..32 commits with octopus merges, skewed committer and independent author times, branches, lightweight and annotated tags (some tips reachable only through an annotated tag), HEAD walks and All walks; non-trivial = walk over >=3 commits containing a merge or a time inversion/tie; shape = (iso class or size class, time class, walker, limit kind); oracle = set reachability + per-order contract model, disagreements and a sample confirmed with git rev-list",
+		"cases = (history, start, walker/order, limit); exhaustive part: every isomorphism class of DAGs with n<=N commits and <=2 parents x weak orderings of committer time (all for n=4, every sixth for n=5; parent order flipped on every second ordering) x every start x {6 Repository.Log orders, 4 commit-node walkers x {object-backed, commit-graph-backed}, Since/Until at every distinct time, To at every reachable commit}; random part: DAGs of 3..32 commits with octopus merges, skewed committer and independent author times, branches, lightweight and annotated tags (some tips reachable only through an annotated tag), HEAD walks and All walks; non-trivial = walk over >=3 commits containing a merge or a time inversion/tie; shape = (iso class or size class, time class, walker, limit kind); oracle = set reachability + per-order contract model, disagreements and a sample confirmed with git rev-list",
 		run)
 }
 
@@ -139,7 +139,7 @@ func run(c *vf.Ctx) {
 		return
 	}
 	c.Extra("exhaustive", false)
-	c.Extra("exhaustive_subspace", fmt.Sprintf("DAGs with 4..%d commits, <=2 parents, %d isomorphism classes x weak orderings of committer time = %d components; every start, order, walker, Since/Until threshold and To commit enumerated", maxN, classes, len(sp.comps)))
+	c.Extra("exhaustive_subspace", fmt.Sprintf("DAGs with 4..%d commits, <=2 parents, %d isomorphism classes x weak orderings of committer time (all 75 for n=4; every sixth of the 541 for n=5) = %d components; every start, order, walker, Since/Until threshold and To commit enumerated", maxN, classes, len(sp.comps)))
 	c.Count("components_exhaustive", len(sp.comps))
 	fmt.Printf("phase exh import %.1fs\n", time.Since(t0).Seconds())
 	k.runSpace(sp, nil)
@@ -199,7 +199,7 @@ func run(c *vf.Ctx) {
 			c.Broken("init: %v", err)
 			return
 		}
-		ids, err := g.Import(rs.dir, gh)
+		ids, err := gitx.New(rs.dir+".home").Import(rs.dir, gh) // own HOME per repository: gitx.Import names its marks file after the global call counter, which two parallel imports can share
 		if err != nil {
 			c.Broken("import: %v", err)
 			return
@@ -226,7 +226,7 @@ func run(c *vf.Ctx) {
 	c.Floor("Since/Until walks", c.Counter("limit_since")+c.Counter("limit_until")+c.Counter("limit_both"), c.N(10000, 100000))
 	c.Floor("To walks", c.Counter("limit_to"), c.N(5000, 50000))
 	c.Floor("All walks", c.Counter("walk_all"), c.N(50, 300))
-	c.Floor("git confirmations", c.Counter("git_confirmations"), c.N(150, 800))
+	c.Floor("git confirmations", c.Counter("git_confirmations"), c.N(150, 500))
 	c.Floor("walks over skewed or tied times", c.Counter("walks_nonmonotone"), c.N(20000, 200000))
 	c.Assume("time limits: oracle is real git (`rev-list --max-age/--min-age`, default streaming walk), modelled as 'a commit older than --since is not shown and its parents are not followed'; model validated against git on the sample and on every reported case")
 	c.Assume("tail limit To (documented 'go down until it reaches the commit', inclusive): git expression `rev-list from --not to^@`, evaluated as reach(from) minus reach(parents(to)) from two exact git rev-list outputs; only To commits reachable from From are in the domain")
